@@ -1,13 +1,9 @@
-#![allow(dead_code)]
 //! tvh — turmoil verification harness. `tvh check <ID> [quick|thorough]`,
 //! `tvh replay <path>`. See /verif/DESIGN.md.
 
-mod drivers;
-mod models;
-mod engine;
-mod props;
 
-use engine::Tier;
+use tvh::engine::{self, Tier};
+use tvh::props;
 
 fn usage() -> ! {
     eprintln!("usage: tvh check <ID> [quick|thorough] | tvh replay <file> | tvh list");
